@@ -144,7 +144,8 @@ def small_path(r, mods=True, jsonable=False):
     return p
 
 
-PATHY_KEYS = ["path", "path.length", "\\path", "xpath", "a\\path", "path.first.length"]
+PATHY_KEYS = ["path", "path.length", "\\path", "xpath", "a\\path", "path.first.length", "PATH", "Path.Length", "\\PATH",
+              "path.xpath", "pathpath", "a\\pathpath"]
 
 
 def pathy_literal(r):
@@ -171,6 +172,8 @@ def gen_patharg(r):
             v = mk()
         elif c < 75:
             v = [mk() if r.coin() else G.scalar(r) for _ in range(r.between(1, 3))]
+            if r.coin(35):
+                v = tuple(v)  # a tuple given as THE argument stays a tuple
         else:
             v = {kk: (mk() if r.coin() else G.scalar(r)) for kk in r.subset(["a", "b", "c"], 1, 2)}
             v["z"] = 0  # keep it multi-key so the mapping itself is a literal
